@@ -23,6 +23,14 @@ Require Import ZArith List Bool Arith.
 Require Import BFL.Ops.
 Import ListNotations.
 
+(* an operation sequence executed only as long as every operation is defined in the C++
+   (no Eigen assertion, no unsigned wrap-around, no use of reallocated storage) *)
+Fixpoint run_ops {X O : Type} (def : O -> X -> bool) (app : O -> X -> X) (ops : list O) (x : X) : option X :=
+  match ops with
+  | [] => Some x
+  | o :: r => if def o x then run_ops def app r (app o x) else None
+  end.
+
 Section C11.
 Variable S : SOps.
 Variable junk : T S.        (* value of an uninitialised double *)
@@ -174,6 +182,9 @@ Definition gm_weight (g : gm) (i : nat) : A := get (weight_ g) i 0.
 Definition gauss_mean (g : gm) : mx := e_col (mean_ g) 0.
 Definition gauss_cov (g : gm) : mx := cov_ g.
 Definition gauss_weight (g : gm) : A := get (weight_ g) 0 0.
+(* Gaussian::mean(i) = mean_(i, 0), Gaussian::covariance(i, j) = covariance_(i, j) *)
+Definition gauss_mean_el (g : gm) (i : nat) : A := get (mean_ g) i 0.
+Definition gauss_cov_el (g : gm) (i j : nat) : A := get (cov_ g) i j.
 
 (* ------------------------------------------------------------ ParticleSet *)
 Record pset := mkPs { base : gm; state_ : mx }.
@@ -232,38 +243,6 @@ Definition ps_fill (b : Z) (p : pset) : pset :=
 Definition ps_state (p : pset) (i : nat) : mx := e_col (state_ p) i.
 Definition ps_state_el (p : pset) (i j : nat) : A := get (state_ p) j i.
 
-(* ------------------------------------------------------------ operation sequences *)
-Inductive gop :=
-| GFill (b : Z) | GCopy | GResize (c l ci : nat) | GAugment (q : mx).
-Definition gm_apply (o : gop) (g : gm) : gm :=
-  match o with
-  | GFill b => gm_fill b g
-  | GCopy => gm_copy g
-  | GResize c l ci => gm_resize c l ci g
-  | GAugment q => snd (gm_augment q g)
-  end.
-(* a Gaussian is a mixture whose resize fixes one component *)
-Inductive gaussop :=
-| NFill (b : Z) | NCopy | NResize (l ci : nat) | NAugment (q : mx).
-Definition gauss_apply (o : gaussop) (g : gm) : gm :=
-  match o with
-  | NFill b => gm_fill b g
-  | NCopy => gm_copy g
-  | NResize l ci => gauss_resize l ci g
-  | NAugment q => snd (gm_augment q g)
-  end.
-Inductive pop :=
-| PFill (b : Z) | PCopy | PResize (c l ci : nat) | PAugment (q : mx) | PConcat (rhs : pset) | PPlus (rhs : pset).
-Definition ps_apply (o : pop) (p : pset) : pset :=
-  match o with
-  | PFill b => ps_fill b p
-  | PCopy => ps_copy p
-  | PResize c l ci => ps_resize c l ci p
-  | PAugment q => snd (ps_augment q p)
-  | PConcat rhs => ps_concat rhs p
-  | PPlus rhs => ps_plus p rhs
-  end.
-
 (* ------------------------------------------------------------ where the transcription is faithful
    (outside: Eigen assertion / undefined behaviour in the C++) *)
 (* m.block(r0, c0, h, w) = src needs the block inside m and src of shape (h, w) *)
@@ -278,9 +257,100 @@ Definition ps_concat_defined (rhs p : pset) : bool :=
   && blk_ok (e_cresize_cols (mean_ g) nc) 0 (nc - n) (mrows (mean_ g)) n (mean_ r)
   && blk_ok (e_cresize_cols (cov_ g) (dcov g * nc)) 0 (dcov g * nc - dcov g * n) (mrows (cov_ g)) (dcov g * n) (cov_ r)
   && blk_ok (e_cresize_vec (weight_ g) nc) (nc - n) 0 n 1 (weight_ r).
+(* p += p: the right operand IS the left one, so after each conservativeResize the source of the
+   block assignment is the already enlarged storage itself *)
+Definition ps_concat_self_defined (p : pset) : bool :=
+  let g := base p in
+  let n := components g in
+  let nc := n + n in
+  let st1 := e_cresize_cols (state_ p) nc in
+  let m1 := e_cresize_cols (mean_ g) nc in
+  let c1 := e_cresize_cols (cov_ g) (dcov g * nc) in
+  let w1 := e_cresize_vec (weight_ g) nc in
+  blk_ok st1 0 (nc - n) (mrows st1) n st1
+  && blk_ok m1 0 (nc - n) (mrows m1) n m1
+  && blk_ok c1 0 (dcov g * nc - dcov g * n) (mrows c1) (dcov g * n) c1
+  && blk_ok w1 (nc - n) 0 n 1 w1.
 (* the loop bound `components - 1` of augmentWithNoise is unsigned *)
 Definition gm_augment_defined (q : mx) (g : gm) : bool :=
   negb (mrows q =? mcols q) || (1 <=? components g).
+(* g.augmentWithNoise(g.covariance()): the argument is a Ref into covariance_, which is reallocated
+   (conservativeResizeLike) before the argument is read: defined only if nothing is reallocated *)
+Definition gm_augment_self_defined (g : gm) : bool :=
+  gm_augment_defined (cov_ g) g
+  && (negb (mrows (cov_ g) =? mcols (cov_ g)) || (mrows (cov_ g) =? 0)).
+
+(* ------------------------------------------------------------ operation sequences *)
+Inductive gop :=
+| GFill (b : Z) | GCopy | GResize (c l ci : nat) | GAugment (q : mx)
+| GAugmentSelf.                       (* g.augmentWithNoise(g.covariance()) *)
+Definition gm_apply (o : gop) (g : gm) : gm :=
+  match o with
+  | GFill b => gm_fill b g
+  | GCopy => gm_copy g
+  | GResize c l ci => gm_resize c l ci g
+  | GAugment q => snd (gm_augment q g)
+  | GAugmentSelf => snd (gm_augment (cov_ g) g)     (* the value a temporary copy of the argument would give *)
+  end.
+Definition gop_defined (o : gop) (g : gm) : bool :=
+  match o with
+  | GAugment q => gm_augment_defined q g
+  | GAugmentSelf => gm_augment_self_defined g
+  | _ => true
+  end.
+(* a Gaussian is a mixture whose own resize fixes one component; through a GaussianMixture&
+   the hidden virtual GaussianMixture::resize(c, l, ci) is reachable as well (NResizeBase) *)
+Inductive gaussop :=
+| NFill (b : Z) | NCopy | NResize (l ci : nat) | NAugment (q : mx)
+| NAugmentSelf | NResizeBase (c l ci : nat).
+Definition gauss_apply (o : gaussop) (g : gm) : gm :=
+  match o with
+  | NFill b => gm_fill b g
+  | NCopy => gm_copy g
+  | NResize l ci => gauss_resize l ci g
+  | NAugment q => snd (gm_augment q g)
+  | NAugmentSelf => snd (gm_augment (cov_ g) g)
+  | NResizeBase c l ci => gm_resize c l ci g
+  end.
+Definition gaussop_defined (o : gaussop) (g : gm) : bool :=
+  match o with
+  | NAugment q => gm_augment_defined q g
+  | NAugmentSelf => gm_augment_self_defined g
+  | _ => true
+  end.
+(* operations that keep a Gaussian a one-component object *)
+Definition gaussop_single (o : gaussop) : bool :=
+  match o with NResizeBase c _ _ => c =? 1 | _ => true end.
+Inductive pop :=
+| PFill (b : Z) | PCopy | PResize (c l ci : nat) | PAugment (q : mx)
+| PConcat (rhs : pset)                (* p += rhs, rhs a distinct object *)
+| PPlus (rhs : pset)                  (* p + rhs (the left operand is copied first) *)
+| PAugmentSelf                        (* p.augmentWithNoise(p.covariance()) *)
+| PConcatSelf.                        (* p += p *)
+Definition ps_apply (o : pop) (p : pset) : pset :=
+  match o with
+  | PFill b => ps_fill b p
+  | PCopy => ps_copy p
+  | PResize c l ci => ps_resize c l ci p
+  | PAugment q => snd (ps_augment q p)
+  | PConcat rhs => ps_concat rhs p
+  | PPlus rhs => ps_plus p rhs
+  | PAugmentSelf => snd (ps_augment (cov_ (base p)) p)
+  | PConcatSelf => ps_concat p p                    (* the value a temporary copy of the operand would give *)
+  end.
+Definition pop_defined (o : pop) (p : pset) : bool :=
+  match o with
+  | PAugment q => gm_augment_defined q (base p)
+  | PConcat rhs => ps_concat_defined rhs p
+  | PPlus rhs => ps_concat_defined rhs p
+  | PAugmentSelf => gm_augment_self_defined (base p)
+  | PConcatSelf => ps_concat_self_defined p
+  | _ => true
+  end.
+
+Definition gm_run := run_ops gop_defined gm_apply.
+Definition gauss_run := run_ops gaussop_defined gauss_apply.
+Definition ps_run := run_ops pop_defined ps_apply.
 
 (* ------------------------------------------------------------ the invariant, executable *)
 Definition wfb (m : mx) : bool :=
